@@ -67,7 +67,13 @@ Fixpoint viol_from (chk : case -> list viol) (i : nat) (cs : list case) : list (
   | [] => []
   | c :: t => map (fun v => (i, fst v, snd v)) (dedup_viol (chk c)) ++ viol_from chk (S i) t
   end.
-Definition viol_all (chk : case -> list viol) (cs : list case) := viol_from chk 0 cs.
+Definition viol_all (chk : case -> list oobs -> list viol) (cs : list case) :=
+  viol_from (fun c => chk c (cs_impl c)) 0 cs.
+(* the same checker on the model's own observations: a finding the model
+   reproduces at the same operation is the documented behaviour (used to tell
+   a recorded known finding from a new violation of the same kind) *)
+Definition viol_all_model (chk : case -> list oobs -> list viol) (cs : list case) :=
+  viol_from (fun c => chk c (model_obs c)) 0 cs.
 
 (* cases with a second implementation trace (relational properties) *)
 Fixpoint viol2_from (chk : case -> list oobs -> list nat -> list viol) (i : nat)
